@@ -224,3 +224,29 @@ def fitRscale (obs : List (Obs K)) (wxy wuv : Option (List K)) (scale : Option K
 
 end
 end TW
+
+namespace TW
+
+/-- the four fit geometries of `SUPPORTED_FITGEOM_MODES` -/
+inductive FitGeom where
+  | shift
+  | rshift
+  | rscale
+  | general
+  deriving Repr, DecidableEq
+
+/-- `SUPPORTED_FITGEOM_MODES`: minimum number of points per geometry -/
+def FitGeom.minobj : FitGeom → Nat
+  | .shift => 1
+  | .rshift => 2
+  | .rscale => 2
+  | .general => 3
+
+def FitGeom.ofString? (s : String) : Option FitGeom :=
+  if s = "shift" then some .shift
+  else if s = "rshift" then some .rshift
+  else if s = "rscale" then some .rscale
+  else if s = "general" then some .general
+  else none
+
+end TW
